@@ -1,0 +1,17 @@
+//go:build verif
+// +build verif
+
+package bmtree
+
+// VerifIdxToPath returns a deep copy of the unexported index-to-path lookup
+// tables. It only exists in builds with the "verif" tag (verification hook,
+// read only).
+func VerifIdxToPath() [][]uint64 {
+	out := make([][]uint64, len(idxToPath))
+	for i, t := range idxToPath {
+		if t != nil {
+			out[i] = append([]uint64{}, t...)
+		}
+	}
+	return out
+}
